@@ -43,6 +43,7 @@ class World:
         self.adj_sent = {c: 0 for c in self.chans}
         self.sent_tot = {c: 0 for c in self.chans}
         self.rogue = 0
+        self.pause_after = {c: None for c in self.chans}
         self.acc_tot = {c: 0 for c in self.chans}
         self.excess = []
         self._pending_sessions = []
@@ -75,6 +76,11 @@ class World:
                     dt = 1 if datatype == EXTENDED_DATA_STDERR else 0
                     w.rx[ch][dt] += data
                     w.order[ch] += [(dt, b) for b in data]
+                    if w.pause_after[ch] is not None:
+                        w.pause_after[ch] -= 1
+                        if w.pause_after[ch] <= 0:
+                            w.pause_after[ch] = None
+                            w.cchan[ch].pause_reading()
 
                 def eof_received(self):
                     w.order[ch].append('EOF')
@@ -163,9 +169,16 @@ class World:
         elif kind == 'pause':
             p.call(self.cchan[lbl[1]].pause_reading)
         elif kind == 'resume':
+            if len(lbl) > 3 and lbl[3]:
+                self.pause_after[lbl[1]] = lbl[2]
             p.call(self.cchan[lbl[1]].resume_reading)
+            self.pause_after[lbl[1]] = None
         elif kind == 'dfwd':
+            if len(lbl) > 3 and lbl[3]:
+                self.pause_after[lbl[2]] = 1
             self._dfwd()
+            if len(lbl) > 3:
+                self.pause_after[lbl[2]] = None
         elif kind == 'dbwd':
             took = p.deliver('c', lambda t: t == 93)
             for t, _, pl in took:
